@@ -258,7 +258,15 @@ def dealpha_function(fn: ast.AST, ref: list) -> bool:
         votes[flevel[j][0]][rf[i][0]] += 1
     m = {c: max(v.items(), key=lambda kv: kv[1])[0]
          for c, v in votes.items()}
-    m = _inject(m, {a for a, _ in flevel}, params)
+    # A name that the pinned function also has keeps its meaning: only names
+    # new to the function are mapped, and only onto reference names that
+    # disappeared.  (Two identically shaped initialisations written in the
+    # other order are a reordering, not a renaming.)
+    ref_names = {a for a, _k in rf}
+    cur_all = {a for a, _k in flevel}
+    m = {c: r for c, r in m.items()
+         if c not in ref_names and r not in cur_all}
+    m = _inject(m, cur_all, params)
     if m:
         for st in fn.body:  # type: ignore[attr-defined]
             _Apply(m).visit(st)
@@ -278,9 +286,181 @@ def dealpha_function(fn: ast.AST, ref: list) -> bool:
     return changed
 
 
+# ---------------------------------------------------------------------------
+# Extract-variable invariance (DESIGN 8.7).  A local that the pinned tree
+# does not have, that is assigned once by `name = expr`, and that is read
+# exactly once - by the statement that immediately follows - is a freshly
+# extracted temporary.  It is inlined again before any rule runs, so that
+# `x = f(a); g(x)` and `g(f(a))` are the same program to every rule.  Only
+# evaluation order *within* the using statement can differ, which no rule
+# depends on; every other change of behaviour survives the inlining.
+_SIMPLE = (ast.Expr, ast.Assign, ast.AugAssign, ast.AnnAssign, ast.Return,
+           ast.Raise, ast.Assert, ast.Delete)
+
+
+def _headers(st: ast.stmt) -> list[ast.AST]:
+    """Expressions evaluated exactly once when control reaches st."""
+    if isinstance(st, _SIMPLE):
+        return [st]
+    if isinstance(st, ast.If):
+        return [st.test]
+    if isinstance(st, (ast.For, ast.AsyncFor)):
+        return [st.iter]
+    if isinstance(st, (ast.With, ast.AsyncWith)):
+        return [it.context_expr for it in st.items]
+    return []
+
+
+def _loads_outside_deferred(root: ast.AST, name: str) -> list[ast.Name]:
+    """Loads of `name` under root that are evaluated when root is, i.e. not
+    inside a lambda, comprehension or nested definition."""
+    out: list[ast.Name] = []
+    todo = [root]
+    while todo:
+        n = todo.pop()
+        if isinstance(n, NESTED + (ast.FunctionDef, ast.AsyncFunctionDef,
+                                   ast.ClassDef)) and n is not root:
+            continue
+        if isinstance(n, ast.Name) and n.id == name and isinstance(
+                n.ctx, ast.Load):
+            out.append(n)
+        todo.extend(ast.iter_child_nodes(n))
+    return out
+
+
+class _Inline(ast.NodeTransformer):
+    def __init__(self, target: ast.Name, value: ast.AST) -> None:
+        self.target = target
+        self.value = value
+
+    def visit_Name(self, n: ast.Name) -> ast.AST:
+        return self.value if n is self.target else n
+
+
+def _blocks(fn: ast.AST) -> Iterator[list[ast.stmt]]:
+    todo: list[ast.AST] = [fn]
+    while todo:
+        n = todo.pop()
+        for fld in ('body', 'orelse', 'finalbody'):
+            b = getattr(n, fld, None)
+            if isinstance(b, list) and b and isinstance(b[0], ast.stmt):
+                yield b
+                for s in b:
+                    if not isinstance(s, (ast.FunctionDef,
+                                          ast.AsyncFunctionDef,
+                                          ast.ClassDef)):
+                        todo.append(s)
+        for h in getattr(n, 'handlers', []) or []:
+            todo.append(h)
+        for c in getattr(n, 'cases', []) or []:
+            todo.append(c)
+
+
+def dehoist_function(fn: ast.AST, known: set[str]) -> int:
+    """Inline freshly extracted single-use temporaries; returns how many."""
+    params = _params(fn)
+    done = 0
+    for _round in range(50):
+        uses: dict[str, list[int]] = {}
+        banned: set[str] = set()
+        for n in ast.walk(fn):
+            if isinstance(n, ast.Name):
+                u = uses.setdefault(n.id, [0, 0])
+                u[0 if isinstance(n.ctx, ast.Load) else 1] += 1
+            elif isinstance(n, (ast.Global, ast.Nonlocal)):
+                banned.update(n.names)
+            elif isinstance(n, ast.arg) and n is not fn:
+                banned.add(n.arg)
+            elif isinstance(n, ast.ExceptHandler) and n.name:
+                banned.add(n.name)
+        hit = False
+        for block in list(_blocks(fn)):
+            i = 0
+            while i < len(block) - 1:
+                st = block[i]
+                i += 1
+                if not (isinstance(st, ast.Assign) and len(st.targets) == 1
+                        and isinstance(st.targets[0], ast.Name)):
+                    continue
+                nm = st.targets[0].id
+                if (nm in known or nm in params or nm in banned
+                        or uses.get(nm) != [1, 1]):
+                    continue
+                if any(isinstance(x, (ast.Yield, ast.YieldFrom, ast.Await,
+                                      ast.NamedExpr))
+                       for x in ast.walk(st.value)):
+                    continue
+                nxt = block[i]
+                loads = [ld for h in _headers(nxt)
+                         for ld in _loads_outside_deferred(h, nm)]
+                if len(loads) != 1:
+                    continue
+                _Inline(loads[0], st.value).visit(nxt)
+                i -= 1
+                del block[i]
+                done += 1
+                hit = True
+        if not hit:
+            break
+    return done
+
+
+class _Canon(ast.NodeTransformer):
+    """Branch-order canonical form: `if not X: A else: B` is read as
+    `if X: B else: A` (both in the pinned tree and in any later one), so
+    swapping the arms of a two-armed conditional is invisible to the
+    rules."""
+
+    def visit_If(self, n: ast.If) -> ast.AST:
+        self.generic_visit(n)
+        while (isinstance(n.test, ast.UnaryOp)
+               and isinstance(n.test.op, ast.Not) and n.orelse):
+            n.test = n.test.operand
+            n.body, n.orelse = n.orelse, n.body
+        return n
+
+    def visit_IfExp(self, n: ast.IfExp) -> ast.AST:
+        self.generic_visit(n)
+        while isinstance(n.test, ast.UnaryOp) and isinstance(
+                n.test.op, ast.Not):
+            n.test = n.test.operand
+            n.body, n.orelse = n.orelse, n.body
+        return n
+
+    # Annotations of plain local names carry no behaviour: `x: T = v` is read
+    # as `x = v` and a bare `x: T` as nothing.  Attribute targets keep their
+    # annotation (C12 reads the container types from Worker.__init__).
+    depth = 0
+
+    def _fn(self, n: ast.AST) -> ast.AST:
+        self.depth += 1
+        self.generic_visit(n)
+        self.depth -= 1
+        return n
+
+    visit_FunctionDef = visit_AsyncFunctionDef = _fn  # type: ignore
+
+    def visit_ClassDef(self, n: ast.ClassDef) -> ast.AST:
+        saved, self.depth = self.depth, 0
+        self.generic_visit(n)
+        self.depth = saved
+        return n
+
+    def visit_AnnAssign(self, n: ast.AnnAssign) -> ast.AST:
+        self.generic_visit(n)
+        if self.depth and isinstance(n.target, ast.Name):
+            if n.value is None:
+                return ast.copy_location(ast.Pass(), n)
+            return ast.copy_location(
+                ast.Assign(targets=[n.target], value=n.value,
+                           type_comment=None), n)
+        return n
+
+
 def apply(tree: ast.Module, path: str) -> int:
     """De-alpha every function of a parsed module in place; returns the
-    number of functions whose locals were renamed."""
+    number of functions whose locals were renamed or re-inlined."""
+    _Canon().visit(tree)
     ref = reference()
     if not ref:
         return 0
@@ -293,8 +473,16 @@ def apply(tree: ast.Module, path: str) -> int:
                 visit(c, f'{prefix}{c.name}.')
             elif isinstance(c, (ast.FunctionDef, ast.AsyncFunctionDef)):
                 r = ref.get(f'{path}:{prefix}{c.name}')
-                if r and dealpha_function(c, r):
-                    n += 1
+                known = set()
+                if r:
+                    known = {a for a, _k in r[0]} | {
+                        x for names, _k in r[1] for x in names}
+                # names first (a renamed reference local must be recognised
+                # as known), then re-inline what is still unknown
+                touched = bool(r and dealpha_function(c, r))
+                if dehoist_function(c, known):
+                    touched = True
+                n += touched
                 visit(c, f'{prefix}{c.name}.')
     visit(tree, '')
     return n
@@ -310,6 +498,7 @@ def build_table(root: str = '/repo') -> dict[str, list]:
             p = os.path.join(dp, f)
             rel = os.path.relpath(p, root)
             tree = ast.parse(open(p, encoding='utf-8').read())
+            _Canon().visit(tree)
 
             def visit(node: ast.AST, prefix: str) -> None:
                 for c in ast.iter_child_nodes(node):
